@@ -59,22 +59,42 @@ def check_reset(ctx: Ctx, r: Rule, clsname: str, fields: dict[str, str], exempt:
         raise AnalysisError(f"anchor vanished: {clsname}.reset")
     init = m.lookup(c, "__init__")
     sn = reset.params[0]
+    # every (non-raising) path through reset() must restore every field: a restoring statement that an
+    # early return can skip restores nothing on that path
+    from .paths import function_paths
     ra: dict[str, ast.AST] = {}
-    for n in walk_no_nested(reset.node):
-        if isinstance(n, (ast.Assign, ast.AnnAssign)) and getattr(n, "value", None) is not None:
-            tg = n.targets if isinstance(n, ast.Assign) else [n.target]
-            for t in tg:
-                if isinstance(t, ast.Attribute) and isinstance(t.value, ast.Name) and t.value.id == sn:
-                    ra[t.attr] = n.value
-    delegated = set()
-    cleared = set()
-    for n in walk_no_nested(reset.node):
-        if isinstance(n, ast.Call) and isinstance(n.func, ast.Attribute) and n.func.attr in ("reset", "clear"):
-            a = _self_attr(n.func.value, sn)
-            if a and n.func.attr == "reset":
-                delegated.add(a)
-            elif a:
-                cleared.add(a)
+    delegated: Optional[set] = None
+    cleared: Optional[set] = None
+    assigned_all: Optional[set] = None
+    for p in function_paths(reset.node):
+        if p.term == "raise":
+            continue
+        pa: dict[str, ast.AST] = {}
+        pd: set = set()
+        pcl: set = set()
+        for e in p.events:
+            if e.kind != "stmt":
+                continue
+            n = e.node
+            if isinstance(n, (ast.Assign, ast.AnnAssign)) and getattr(n, "value", None) is not None:
+                tg = n.targets if isinstance(n, ast.Assign) else [n.target]
+                for t in tg:
+                    if isinstance(t, ast.Attribute) and isinstance(t.value, ast.Name) and t.value.id == sn:
+                        pa[t.attr] = n.value
+            for c_ in ast.walk(n):
+                if isinstance(c_, ast.Call) and isinstance(c_.func, ast.Attribute) and c_.func.attr in ("reset", "clear"):
+                    a = _self_attr(c_.func.value, sn)
+                    if a and c_.func.attr == "reset":
+                        pd.add(a)
+                    elif a:
+                        pcl.add(a)
+        ra.update(pa)
+        assigned_all = set(pa) if assigned_all is None else assigned_all & set(pa)
+        delegated = pd if delegated is None else delegated & pd
+        cleared = pcl if cleared is None else cleared & pcl
+    delegated = delegated or set()
+    cleared = cleared or set()
+    ra = {k: v for k, v in ra.items() if k in (assigned_all or set())}
     ia = _init_assigns(init) if init is not None else {}
     # dataclass defaults
     if init is None:
